@@ -105,8 +105,9 @@ def run(tier):
         pairs = [(i, j) for i in idx for j in idx]
     for coll in ("binary", "nocase", "rtrim"):
         for (i, j) in pairs:
-            if coll != "binary" and not (g[i][0] == "t" and g[j][0] == "t"):
-                # collations only matter for text pairs; keep a sample of the others
+            if coll != "binary" and not (g[i][0] in "tb" and g[j][0] in "tb"):
+                # collations only matter for text pairs -- and must NOT matter for blobs, which look like text: all text /
+                # blob pairs are kept, a sample of the others
                 if (i * 31 + j) % 17 != 0:
                     continue
             reqs.append({"op": "cmp", "a": values.to_jval(g[i]), "b": values.to_jval(g[j]), "coll": coll,
